@@ -18,7 +18,23 @@ func aggGuardSpec() *guardSpec {
 	}
 	gs.Extra = func(in ssa.Instruction) []guardedAccess {
 		c := callOf(in)
-		if c == nil || c.IsInvoke() || c.StaticCallee() != nil {
+		if c == nil {
+			return nil
+		}
+		// the clock that deadlines are computed from / compared with is read inside the critical section: an operation
+		// that waited for the lock must not apply a time from before operations that were serialised ahead of it
+		if cc, ok := in.(*ssa.Call); ok && calleeName(c) == "time.Now" && keyInPkg(fnKey(in.Parent()), "pkg/intermediate") {
+			for _, ref := range refs(cc) {
+				if rc := callOf(ref); rc != nil {
+					switch calleeName(rc) {
+					case "(time.Time).Add", "(time.Time).After", "(time.Time).Before", "(time.Time).Sub":
+						return []guardedAccess{{In: in, Field: "clock read used for flow deadlines", Need: 1, Kind: "time.Now()", Lock: aggMutex}}
+					}
+				}
+			}
+			return nil
+		}
+		if c.IsInvoke() || c.StaticCallee() != nil {
 			return nil
 		}
 		if typeName(c.Value.Type()) == "pkg/intermediate.FlowKeyRecordMapCallBack" {
